@@ -465,13 +465,23 @@ func addrOffset(idx *ai.Int, addrSym ai.Sym, lo, hi int) (off int64, ok bool) {
 // path: a handler that sometimes answers with a constant instead (a lock-out, a busy state) or that
 // post-processes the byte fails.  n is the number of element loads seen.
 func (c *Ctx) readReturnsLoadedByte(lo, hi int, setup func(*ai.State)) (ok bool, n int, got string) {
+	return c.readReturnsLoadedByteFrom(nil, lo, hi, setup)
+}
+
+// readReturnsLoadedByteFrom is readReturnsLoadedByte starting from a given state (nil: the generic state).
+func (c *Ctx) readReturnsLoadedByteFrom(from *ai.State, lo, hi int, setup func(*ai.State)) (ok bool, n int, got string) {
 	it := c.W.It
 	fn := c.decoderFn(false)
 	mp := c.mapperPtr()
 	if fn == nil || mp == nil {
 		return false, 0, "decoder not found"
 	}
-	st := it.StateOn(c.W.Generic)
+	st := from
+	if st == nil {
+		st = it.StateOn(c.W.Generic)
+	} else {
+		st = st.Fork()
+	}
 	if setup != nil {
 		setup(st)
 	}
